@@ -155,6 +155,8 @@ class AirDevice(nfc.clf.device.Device):
         if target.brty not in BRTY:
             raise nfc.clf.UnsupportedTargetError("unsupported bitrate " + target.brty)
         a.wait_listener()
+        if a.dead:
+            return None
         atr_req = bytes(target.atr_req)
         frame = bytes([len(atr_req) + 1]) + atr_req
         if target.brty == "106A":
